@@ -1,5 +1,6 @@
 """Pieces shared by the Verus units: file header, common item sets, common rules."""
 import os
+import re
 import sys
 
 sys.path.insert(0, os.path.join(os.path.dirname(os.path.dirname(os.path.abspath(__file__))), 'spec'))
@@ -50,8 +51,9 @@ def common_rules(u, linked_list=(1, 99)):
     # R1: LinkedList -> VecDeque (the only sequence container with a library model)
     u.rule('R1:LinkedList->VecDeque', r'\bLinkedList\b', 'VecDeque', linked_list)
     # R8: visibility only
-    u.rule('R8:pub-fields', r'(?m)^(\s+)(ver_type_tkl: u8,|code: u8,|message_id: u16,|token: Vec<u8>,)', r'\1pub \2', (0, 9))
-    u.rule('R8:pub(crate)', r'pub\(crate\) ', 'pub ', (0, 9))
+    for st in ['HeaderRaw', 'Header', 'Packet']:
+        if re.search(r'struct ' + st + r'\b[^{;]*\{', u.text):
+            u.pub_fields(st)
 
 
 def header_contracts(u, props_dec):
